@@ -226,11 +226,16 @@ def run(seed, tier, driver):
     for label, stream in (('burst_small', (pool['update_ok'] + pool['keepalive'] + pool['update_withdraw']) * 45),
                           ('burst_max', pool['update_max4096'] + pool['keepalive'] + pool['update_max4096'] + pool['update_ok']),
                           # more than a thousand complete messages in one segment (a 64 kB read can hold 3400 KEEPALIVEs)
-                          ('burst_many', (pool['keepalive'] * 9 + pool['update_withdraw']) * 130)):
+                          ('burst_many', (pool['keepalive'] * 9 + pool['update_withdraw']) * 130)) + \
+            tuple(('burst_count_%d' % k, pool['keepalive'] * k) for k in (1023, 1024, 1025, 2047, 2048, 2049, 2050, 3449)):
+        # (round 10: exact message counts around the powers of two a per-run message budget would use - a drain loop that
+        #  stops after 2048 messages and resumes only when MORE than a header is left loses the 2049th KEEPALIVE; 3449
+        #  KEEPALIVEs are what one 64 kB read can hold)
         base = None
         n = len(stream)
-        for cuts in ([], [4096], [4097], [n // 2], [1000, 5000 % n if 5000 % n > 1000 else n - 1],
-                     sorted(r.sample(range(1, n), 3)), list(range(512, n, 512))):
+        for cuts in (([], [4096], [4097], [n // 2], [1000, 5000 % n if 5000 % n > 1000 else n - 1],
+                      sorted(r.sample(range(1, n), 3)), list(range(512, n, 512))) if not label.startswith('burst_count')
+                     else ([], [n // 2], [19 * 1024])):
             p, outs, final, hang = play('ESTABLISHED', cut(stream, cuts))
             res.stats.case(('seg', 'ESTABLISHED', label, tuple(cuts)), nontrivial=True, sample=None)
             res.stats.hit('stream_burst')
